@@ -893,6 +893,15 @@ func genSharedStress(r *hx.Rand, st *hx.Stats) string {
 func gen(r *hx.Rand, n int, tier string, emit func(string), st *hx.Stats) {
 	for i := 0; i < n; i++ {
 		c := r.Fork()
+		// a few repeated stress cases per run: 16 goroutines on a short script with an error, many rounds — this is what
+		// makes a stale fetch in fetchAndWait (finding F18, fixed by the re-check in fetchMore) show up reliably
+		if i%400 == 7 {
+			st.Inc("shr")
+			scripts := []string{"0.0,!7", "!7,0.0", "#30@20!8", "0.0,1.1,!3,2.0"}
+			plan := strings.TrimSuffix(strings.Repeat("-1,", 16), ",")
+			emit(fmt.Sprintf("shr %s %s %d", hx.Pick(c, scripts), plan, 1500))
+			continue
+		}
 		switch k := c.Intn(20); {
 		case k < 13:
 			emit(genAdapter(c, st))
